@@ -17,9 +17,12 @@ Inductive ident :=
 | IdBytes (b : bytes)                       (* hash_bytes(b): `b.hash(&mut hasher)` on a &[u8] *)
 | IdFlow (a b : bytes) (p q : N).           (* a.hash; b.hash; (p as u16).hash; (q as u16).hash *)
 
-(* `packet.len() > 14 && (packet[12..14] == 08 00 || == 86 DD)` -> 14, else 0 *)
+(* `(packet.len() >= 34 && packet[12..14] == 08 00) || (packet.len() >= 54 && packet[12..14] == 86 DD)`
+   -> 14, else 0: Ethernet only when the frame can hold the IP header its ethertype announces, as
+   try_ethernet_format requires (fix for the former class raw_as_ethernet) *)
 Definition ip_start (f : bytes) : nat :=
-  if (14 <? length f)%nat && ((ethertype f =? ET_IPV4) || (ethertype f =? ET_IPV6)) then 14%nat else 0%nat.
+  if ((34 <=? length f)%nat && (ethertype f =? ET_IPV4)) || ((54 <=? length f)%nat && (ethertype f =? ET_IPV6))
+  then 14%nat else 0%nat.
 
 (* ---------------- TCP: hash_source_ip ---------------- *)
 Definition tcp_ident (f : bytes) : ident :=
@@ -99,10 +102,11 @@ End Worker.
    c18_dom: the domain of the property's quantifier (Ethernet or raw framing, not BSD loopback)
    restricted to frames whose IP version nibble is the one their framing announces (under
    Ethernet the analyzer trusts the ethertype, the hash functions re-read the nibble).
-   raw_as_ethernet (known defect class, open): a raw IPv4 packet whose bytes 12..13 (the first
-   two bytes of the source address, 134.221.x.x) read 86 DD and that is shorter than 54 bytes:
-   parse_packet falls back to raw IP (an IPv6 view needs 40 bytes after offset 14), the hash
-   functions skip 14 bytes regardless. *)
+   raw_as_ethernet: the FORMER known class (a raw IPv4 packet whose bytes 12..13 read 86 DD and
+   that is shorter than 54 bytes: parse_packet falls back to raw IP, the hash functions used to
+   skip 14 bytes regardless).  With the repaired ip_start it is empty
+   (HashProofs.raw_as_ethernet_empty); the definition is kept only because
+   Proofs/PoolInstances.v (C10) spells it in pool_dom. *)
 Definition version_consistent (f : bytes) : bool :=
   match parse_packet f with
   | Some (_, View4 ip) => version_of ip =? 4
